@@ -96,27 +96,19 @@ def run(ctx):
 
 
 def set_of(ctx, name, t0):
+    """the set of Expr variants for which the bool function `name` answers true (evaluated per variant)"""
     f = ctx.fn("patronus", S + name)
-    m = find_match_on(f["body"], lambda s_: peel(s_).get("k") == "local")
+    pid = (param_ids(f) + [None])[0]
     out = set()
-    ok = m is not None
-    if ok:
-        for alt, arm in match_arms(m):
-            vp = variant_pat(alt)
-            b = peel(arm["body"])
-            val = b.get("v") if b.get("k") == "lit" else None
-            if vp is None:
-                if val is not False:
-                    ok = False
-                continue
-            if "guard" in arm:
-                ok = False
-            if val is True:
-                out.add(vname(vp[0]))
-            elif val is not False:
-                ok = False
-    if not ok:
-        ctx.violation("R05.1", "%s:shape" % name, f["span"], "UNRECOGNISED: %s is not a match of variants to boolean literals" % name)
+    unknown = []
+    for vn in t0.variants:
+        v = eval_variant_pred(f["body"], pid, EXPR + "::" + vn)
+        if v is None:
+            unknown.append(vn)
+        elif v:
+            out.add(vn)
+    if unknown or pid is None:
+        ctx.violation("R05.1", "%s:shape" % name, f["span"], "UNRECOGNISED: the value of %s cannot be determined from the variant alone for %s" % (name, unknown[:6]))
         return None
     return out
 
@@ -570,40 +562,185 @@ def meaning(ctx, model, t0):
                  "%s is written with operator(s) %s, its meaning requires %s" % (vn, sorted(toks), sorted(MEANING.get(vn, []))), sample={"variant": vn, "operators": sorted(toks)})
 
 
+class _Unknown(Exception):
+    pass
+
+
+def eval_type_writer(c, f, case):
+    """abstract evaluation of serialize_type for one class of types: case = ("BV", w) | ("Array", i, d) with widths "1" (exactly one bit) or "n" (wider).
+    Returns the write site reached as (format shape, [roles of the placeholders: "w" | "i" | "d"]); raises _Unknown when the path depends on anything else."""
+    TYPE = "patronus::expr::nodes::Type::"
+    sites = {id(s_["node"]): s_ for s_ in fmtstr.macro_sites(c, f["body"], ("write", "writeln"))}
+    tpe_id = (param_ids(f) + [None, None])[1]
+    env = {}
+
+    def width(role, cls):
+        return ("int", role, cls)
+    if case[0] == "BV":
+        tval = ("type", "BV", width("w", case[1]))
+    else:
+        tval = ("type", "Array", ("arr", width("i", case[1]), width("d", case[2])))
+
+    def val(e):
+        e = peel(e)
+        k = e.get("k")
+        if k == "local":
+            if tpe_id is not None and canon(e["id"]) == canon(tpe_id):
+                return tval
+            if e["id"] in env:
+                return env[e["id"]]
+            raise _Unknown("local " + e["name"])
+        if k == "lit":
+            return ("lit", e.get("v"))
+        if k == "field":
+            b = val(e["e"])
+            if b[0] == "arr":
+                return {"index_width": b[1], "data_width": b[2]}.get(e["name"]) or _raise("field " + str(e["name"]))
+            raise _Unknown("field of " + str(b[0]))
+        if k == "tuple":
+            return ("tuple", [val(x) for x in e["es"]])
+        if k == "binary" and e["op"] in ("==", "!=", ">", "<=", ">=", "<"):
+            a, b = val(e["l"]), val(e["r"])
+            op = e["op"]
+            if a[0] == "lit" and b[0] == "int":
+                a, b = b, a
+                op = {"<": ">", ">": "<", "<=": ">=", ">=": "<=", "==": "==", "!=": "!="}[op]
+            if a[0] == "int" and b[0] == "lit":
+                one = a[2] == "1"
+                tbl = {("==", 1): one, ("!=", 1): not one, (">", 1): not one, ("<=", 1): one, (">=", 2): not one, ("<", 2): one}
+                if (op, b[1]) in tbl:
+                    return ("bool", tbl[(op, b[1])])
+            raise _Unknown("comparison")
+        if k == "binary" and e["op"] in ("&&", "||"):
+            a = val(e["l"])
+            if a[0] != "bool":
+                raise _Unknown("non-bool operand")
+            if (e["op"] == "&&" and not a[1]) or (e["op"] == "||" and a[1]):
+                return a
+            return val(e["r"])
+        if k == "unary" and e["op"] == "!":
+            a = val(e["e"])
+            if a[0] != "bool":
+                raise _Unknown("non-bool operand")
+            return ("bool", not a[1])
+        raise _Unknown("expression " + str(k))
+
+    def _raise(m):
+        raise _Unknown(m)
+
+    def bind(pat, v):
+        """True/False: does v match pat (binding into env)"""
+        while pat.get("k") in ("pref", "pderef"):
+            pat = pat["pat"]
+        k = pat.get("k")
+        if k == "pwild":
+            return True
+        if k == "pbind" and "sub" not in pat:
+            env[pat["id"]] = v
+            return True
+        if k == "plit":
+            if v[0] == "int":
+                if pat.get("v") == 1:
+                    return v[2] == "1"
+                if pat.get("v") == 0:
+                    return False
+                raise _Unknown("literal pattern %s" % pat.get("v"))
+            raise _Unknown("literal pattern on non-int")
+        if k == "ptuple" and v[0] == "tuple" and len(pat["subs"]) == len(v[1]) and not pat.get("rest"):
+            return all([bind(sp, x) for sp, x in zip(pat["subs"], v[1])])
+        if k == "pvariant" and v[0] == "type":
+            if pat["path"] != TYPE + v[1]:
+                return False
+            if len(pat["subs"]) == 1:
+                return bind(pat["subs"][0], v[2])
+            return True
+        if k == "por":
+            return any(bind(a, v) for a in pat["alts"])
+        raise _Unknown("pattern " + str(k))
+
+    def run_(e):
+        """returns the site node reached (first write), or None"""
+        e0 = e
+        if id(e0) in sites:
+            return sites[id(e0)]
+        k = e.get("k")
+        if k in ("try", "semi", "return", "ireturn"):
+            return run_(e["e"]) if "e" in e else None
+        if k == "blockexpr" or k == "block":
+            b = e["b"] if k == "blockexpr" else e
+            for s_ in b["stmts"]:
+                if s_.get("k") == "let":
+                    if "init" in s_:
+                        r = run_(s_["init"])
+                        if r is not None:
+                            return r
+                        try:
+                            bind(s_["pat"], val(s_["init"]))
+                        except _Unknown:
+                            pass            # a binding that is never needed does not matter; a needed one raises at its use
+                    continue
+                r = run_(s_)
+                if r is not None:
+                    return r
+            return run_(b["tail"]) if "tail" in b else None
+        if k == "match":
+            v = val(e["scrut"])
+            for arm in e["arms"]:
+                if "guard" in arm:
+                    raise _Unknown("guard")
+                if bind(arm["pat"], v):
+                    return run_(arm["body"])
+            raise _Unknown("no arm matches")
+        if k == "if":
+            cv = val(e["cond"])
+            if cv[0] != "bool":
+                raise _Unknown("condition")
+            if cv[1]:
+                return run_(e["then"])
+            return run_(e["else"]) if "else" in e else None
+        if k in ("mcall", "call"):
+            for a in call_args(e):
+                if any(id(x) in sites for x in walk(a)):
+                    return run_(a)
+            return None
+        return None
+    site = run_(f["body"])
+    if site is None:
+        raise _Unknown("nothing is written")
+    pc = fmtstr.parse_call(site["snippet"])
+    roles = []
+    for a in fmtstr.arg_nodes(site):
+        v = val(a) if a is not None else ("?",)
+        roles.append(v[1] if v[0] == "int" else "?")
+    return fmtstr.shape(pc[2]), roles
+
+
 def types(ctx, c):
     f = ctx.fn("patronus", S + "serialize_type")
-    sites = fmtstr.macro_sites(c, f["body"], ("write",))
-    fm = sorted(fmtstr.parse_call(s_["snippet"])[2] for s_ in sites)
-    want = sorted(["Bool", "(_ BitVec {width})", "(Array Bool Bool)", "(Array Bool (_ BitVec {d}))", "(Array (_ BitVec {i}) Bool)", "(Array (_ BitVec {i}) (_ BitVec {d}))"])
-    ok = fm == want
-    # pattern <-> format agreement
-    okp = True
-    for n in walk(f["body"]):
-        if n.get("k") == "match":
-            for arm in n["arms"]:
-                p = arm["pat"]
-                s_ = fmtstr.macro_sites(c, arm["body"], ("write",))
-                if len(s_) != 1:
-                    continue
-                fmt_ = fmtstr.parse_call(s_[0]["snippet"])[2]
-                ps = show_pat(p)
-                if p.get("k") == "ptuple":
-                    i_lit = p["subs"][0].get("k") == "plit"
-                    d_lit = p["subs"][1].get("k") == "plit"
-                    exp = "(Array %s %s)" % ("Bool" if i_lit else "(_ BitVec {%s})" % p["subs"][0].get("name"), "Bool" if d_lit else "(_ BitVec {%s})" % p["subs"][1].get("name"))
-                    if i_lit and p["subs"][0].get("v") != 1 or d_lit and p["subs"][1].get("v") != 1:
-                        okp = False
-                    okp = okp and fmt_ == exp
-                elif "BV" in ps:
-                    sub = p["subs"][0] if p.get("subs") else {}
-                    if sub.get("k") == "plit":
-                        okp = okp and sub.get("v") == 1 and fmt_ == "Bool"
-                    else:
-                        okp = okp and fmt_ == "(_ BitVec {%s})" % sub.get("name")
-            # arm order: literal-1 arms must precede the general ones
-    scr = [n for n in walk(f["body"]) if n.get("k") == "match" and peel(n["scrut"]).get("k") == "tuple"]
-    oks = len(scr) == 1 and show(scr[0]["scrut"]).replace(" ", "") == "(a.index_width,a.data_width)"
-    ctx.inst("R05.1", "serialize_type:table", ok and okp and oks, f["span"], "serialize_type must spell 1-bit sorts as Bool and others as (_ BitVec w), arrays as (Array <index> <data>) in that order: %s" % fm, sample=fm)
+
+    def sort_txt(role, cls):
+        return ("Bool", []) if cls == "1" else ("(_ BitVec {})", [role])
+    got = {}
+    ok = True
+    why = []
+    cases = [("BV", w) for w in "1n"] + [("Array", i, d) for i in "1n" for d in "1n"]
+    for case in cases:
+        if case[0] == "BV":
+            want = sort_txt("w", case[1])
+        else:
+            a, b = sort_txt("i", case[1]), sort_txt("d", case[2])
+            want = ("(Array %s %s)" % (a[0], b[0]), a[1] + b[1])
+        try:
+            res = eval_type_writer(c, f, case)
+        except _Unknown as ex:
+            ok = False
+            why.append("%s: UNRECOGNISED (%s)" % (case, ex))
+            continue
+        got[str(case)] = res[0]
+        if (res[0], res[1]) != want:
+            ok = False
+            why.append("%s is written as `%s` with widths %s, expected `%s` with %s" % (case, res[0], res[1], want[0], want[1]))
+    ctx.inst("R05.1", "serialize_type:table", ok, f["span"], "serialize_type must spell 1-bit sorts as Bool and others as (_ BitVec w), arrays as (Array <index> <data>) in that order: %s" % "; ".join(why), sample=got)
 
 
 def child_order(ctx):
@@ -702,7 +839,20 @@ def identifiers(ctx, c):
                 n_sym += 1
         esc = [x for x in walk(h["body"]) if x.get("k") == "call" and callee(x) == S + "escape_smt_identifier"]
         names_ = [x for x in walk(h["body"]) if (x.get("k") == "mcall" and x["name"] == "get_symbol_name") or (x.get("k") == "index" and (x.get("ty") or "") == "alloc::string::String")]
-        covered = [nm for nm in names_ if any(contains(e_, nm) for e_ in esc)]
+        hix = Index(h["body"])
+
+        def reaches_escape(nm):
+            if any(contains(e_, nm) for e_ in esc):
+                return True
+            # `let name = ..get_symbol_name(..)..; escape_smt_identifier(name)`
+            for a in hix.ancestors(nm):
+                if a.get("k") == "let" and a["pat"].get("k") == "pbind":
+                    lid = a["pat"]["id"]
+                    return any(is_local(chain(e_["args"][0])[0], lid) for e_ in esc if e_.get("args"))
+                if a.get("k") in ("closure", "for", "while", "loop", "if", "match"):
+                    return False
+            return False
+        covered = [nm for nm in names_ if reaches_escape(nm)]
         ctx.inst("R05.5", "escaped:%s" % path.split("::")[-1], len(covered) == len(names_) and len(names_) >= 2, h["span"], "%d of %d symbol names written by %s do not pass through escape_smt_identifier" % (len(names_) - len(covered), len(names_), path))
 
 
